@@ -36,6 +36,20 @@ CHECKS['C08'] = dict(
     note='Unbounded eventually is out of reach of a finite run; replaced by the step budget. Known scheduler findings D4/D5/D22 are matched by signature outside the clean two-party synchronous stratum, where any deviation is a violation.',
     ref='DESIGN.md §2 C08')
 
+_MODEL_NOTE = 'Trusts the reference model lyref/lynative (calibrated against the unchanged tree; refuses where behaviour is indeterminate) and samples a bounded program space.'
+CHECKS['C02'] = dict(
+    technique='reference-model differential monitor over generated scope skeletons with unique-integer variables, under two builds and a dense collection schedule',
+    text='Generated scope skeletons (closures stored/returned/called after the declaring call returned, factories, loop-variable vs body-local capture, catch variables, self capture, shadowing) are executed on debug, release and debug under collection at every 3rd allocation; stdout is compared with a reference model in which every execution of a declaration allocates a fresh cell. Unique integer values identify which cell was read.',
+    note=_MODEL_NOTE, ref='DESIGN.md §2 C02')
+CHECKS['C03'] = dict(
+    technique='reference-model differential monitor over generated class hierarchies and shared call sites with receiver-class sequences; cache-off self-differential',
+    text='Random hierarchies with per-class field sets, overriding, super, statics, callable fields shadowing methods and shared call sites fed with monomorphic/alternating/random receiver sequences are executed on debug, release and debug with inline caches forced off; every printed value is a unique tag and is compared with the reference class model (including property/arity error classes).',
+    note=_MODEL_NOTE, ref='DESIGN.md §2 C03')
+CHECKS['C04'] = dict(
+    technique='reference-model differential monitor over generated try/catch placements + online handler monitor (recorded depth == live depth, no live handler at return)',
+    text='Generated try/catch placements (module, functions with 0-4 parameters and locals, methods, initialisers, loops, nesting, native callbacks), every raise kind and catch filter and every way of leaving a try; all variables are unique integers printed after each try, compared with the reference model with a dynamic handler stack; an in-VM monitor checks every PushHandler depth against the live depth and that no handler of a frame is live at its Return.',
+    note=_MODEL_NOTE, ref='DESIGN.md §2 C04')
+
 PENDING = {}
 
 
